@@ -17,6 +17,12 @@ that "the fuel suffices" is part of the no-panic theorems (Props/C17.lean), neve
 `saturating_add` on `usize` is `satAdd` (saturates at `usizeMax = 2^64-1`); plain `+ 1` on positions,
 rows and columns is unbounded (those counters are bounded by the text length, which Rust bounds by
 `isize::MAX`).
+
+Line breaks (fix of finding `C17-lone-cr-line-break`): every entry point that counts or splits lines
+(`crop_source_window`, both renderers, `line_count_including_trailing_empty_line`) first rewrites the
+text with `normalize_line_breaks` (`normBreaks`: a lone CR becomes LF, one byte for one byte), so that
+the `\n`-based helpers below see the line breaks YAML sees (LF, CRLF, lone CR); the ring reader counts an
+evicted lone CR as a line, and `line_aligned_text` skips the partial line up to the first such break.
 -/
 namespace SaphyrVerif.Snippet
 open SaphyrVerif
@@ -226,6 +232,12 @@ def stripBom : List Char → List Char
   | c :: cs => if c.toNat = 0xFEFF then cs else c :: cs
   | [] => []
 
+/-- `normalize_line_breaks`: every lone `\r` (one that is not followed by `\n`) becomes `\n`; the
+borrowed and the rebuilt result of the Rust function are the same text -/
+def normBreaks : List Char → List Char
+  | [] => []
+  | c :: cs => (if c = '\r' ∧ cs.head? ≠ some '\n' then '\n' else c) :: normBreaks cs
+
 /-- `s.find('\n')` (byte index) -/
 def findNl : List Char → Option Nat
   | [] => none
@@ -417,7 +429,7 @@ def storageCropLine : Nat := Gen.snippetStorageCropLineBytes
 def cropSourceWindow (text0 : List Char) (loc : Loc) (m : Mapping) (cropRadius : Nat) : Res (List Char × Nat) :=
   if text0.isEmpty ∨ loc.isUnknown then .ok ([], 1)
   else
-    let text := stripBom text0
+    let text := normBreaks (stripBom text0)
     match relativeRow m loc.line with
     | none => .ok ([], m.getD 1)
     | some rel =>
@@ -468,12 +480,13 @@ def spanEnd (text : List Char) (start : Nat) : Res Nat :=
 
 /-- common prefix of `Snippet::fmt_or_fallback` and `fmt_snippet_window_with_mapping_or_fallback`;
 `none` = the fallback (no snippet) path -/
-def prepare (text : List Char) (loc : Loc) (m : Mapping) (cropRadius : Nat) : Res (Option Prepared) :=
+def prepare (text0 : List Char) (loc : Loc) (m : Mapping) (cropRadius : Nat) : Res (Option Prepared) :=
   if loc.isUnknown then .ok none
   else
     match relativeRow m loc.line with
     | none => .ok none
     | some row =>
+      let text := normBreaks text0
       let starts := lineStarts text
       if starts.isEmpty then .ok none
       else if row = 0 ∨ row > starts.length then .ok none
@@ -572,7 +585,8 @@ def fmtWindow (text : List Char) (loc : Loc) (m : Mapping) (msg : List Char) (cr
 /-! ## regions stored by `with_snippet` / `with_snippet_offset` (de_error.rs) -/
 
 /-- `line_count_including_trailing_empty_line` -/
-def lineCount (text : List Char) : Nat :=
+def lineCount (text0 : List Char) : Nat :=
+  let text := normBreaks text0
   let nl := text.count '\n'
   let terminatorCount := if text.isEmpty then 0 else if text.getLast? = some '\n' then nl else nl + 1
   max terminatorCount 1 + (if text.getLast? = some '\n' then 1 else 0)
@@ -685,7 +699,7 @@ structure Ring where
   buf : List Nat
   startOffset : Nat
   startLine : Nat
-  /-- `ring_starts_line`: nothing evicted yet, or the last evicted byte was a line break -/
+  /-- `ring_starts_line`: nothing evicted yet, or the last evicted byte ended a line -/
   startsLine : Bool := true
 deriving Repr
 
@@ -698,9 +712,14 @@ def ringPush1 (cap : Nat) (r : Ring) (off b : Nat) : Ring :=
   let r2 : Ring :=
     if r1.buf.length = cap then
       match r1.buf with
-      | e :: tl => { buf := tl, startOffset := r1.startOffset + 1,
-                     startLine := if e = 0x0A then satAdd r1.startLine 1 else r1.startLine,
-                     startsLine := decide (e = 0x0A) }
+      | e :: tl =>
+        -- `self.ring.front().unwrap_or(b)`: the byte after the evicted one
+        let next := tl.head?.getD b
+        -- LF, or a lone CR; the CR of a CRLF pair does not end the line
+        let endedLine := decide (e = 0x0A ∨ (e = 0x0D ∧ next ≠ 0x0A))
+        { buf := tl, startOffset := r1.startOffset + 1,
+          startLine := if endedLine then satAdd r1.startLine 1 else r1.startLine,
+          startsLine := endedLine }
       | [] => { r1 with startOffset := r1.startOffset + 1 }
     else r1
   { r2 with buf := r2.buf ++ [b] }
@@ -722,11 +741,17 @@ def ringRun (cap ahead : Nat) (data : List Nat) (consumed : Nat) : Res (Nat × N
     pure (so, so + bs.length, sl, bs)
 
 /-- `RecentSnapshot::line_aligned_text` on a snapshot with text `text` (`String::from_utf8_lossy` of
-its bytes): when the snapshot does not start at the beginning of a line, the partial first line is
-left out and the line number advances -/
+its bytes): when the snapshot does not start at the beginning of a line, the partial first line — up
+to and including the first line break (LF, CRLF or a lone CR) — is left out and the line number advances -/
 def lineAligned (startsAtLineStart : Bool) (text : List Char) (startLine : Nat) : List Char × Nat :=
   if startsAtLineStart then (text, startLine)
-  else ((text.dropWhile (· ≠ '\n')).drop 1, satAdd startLine 1)
+  else
+    -- `text.find(['\n', '\r'])`, then past the break (two characters for CRLF)
+    let rest := match text.dropWhile (fun c => c ≠ '\n' ∧ c ≠ '\r') with
+      | '\r' :: '\n' :: t => t
+      | _ :: t => t
+      | [] => []
+    (rest, satAdd startLine 1)
 
 /-- `get_recent()` followed by `line_aligned_text()` (what `from_reader` attaches as snippet text):
 `(starts_at_line_start, text, start_line)`. `from_utf8_lossy` is only modelled on valid UTF-8. -/
